@@ -180,6 +180,7 @@ def run(ctx):
     ctx.rule("R01.2", "non-empty batch: every `return Ok(Some(..))` returns the accumulated `set`, on a path where the set is known non-empty")
     ctx.rule("R01.3", "one consumer, one hand-over: the event queue is read only in throttle_collect; the action handler is called only in "
                       "worker(), once per collected batch, with the batch taken from the returned set; an async handler is awaited")
+    ctx.also("R01.3", "the handler slot's lock is not held while the handler runs (shared with R13.5)")
     ctx.rule("R01.4", "source priority table: Interrupt/Terminate -> Urgent, other signals -> High, keyboard EOF -> Normal (as documented on Priority), fs events -> Normal")
     ctx.rule("R01.6", "signal source table: each OS signal listener (SignalKind::x) is paired, through its position in the select!, with the "
                       "Signal variant of the same meaning (hangup->Hangup, interrupt->Interrupt, quit->Quit, terminate->Terminate, usr1->User1, usr2->User2)")
